@@ -460,8 +460,8 @@ func shapeOf(c *Case) shape {
 	for _, r := range c.Replicas {
 		if r.JoinAt == len(c.Phases) {
 			s.lateJoin = true
-		} else if r.JoinAt > 0 {
-			s.midJoin = true
+		} else if r.JoinAt > 0 || r.Hot {
+			s.midJoin = true // between the write phases, or during one (Hot)
 		}
 		if r.RestartAt >= 0 {
 			s.restart = true
